@@ -32,7 +32,7 @@ def programs(tier, rnd: random.Random):
     # "translated COMPLETELY": every ordered pair of SUPPORTED statements, at top level, in a branch, in a loop body -- the
     # differential oracle (C semantics vs the real output's IL semantics) notices a statement that produced no effect
     simple = ["RdV = RsV;", "ReV = 1;", "mem_store_u32(RtV, RsV);", "JUMP(RtV);", "PdV = 1;", "if (RsV) { RdV = 2; }", "int32_t a = RtV;",
-              "RxV = RxV + 1;", "{ ReV = RtV; }", ";", "RyyV = RssV;", "if (RtV) { JUMP(RsV); } else { ReV = 3; }"]
+              "RxV = RxV + 1;", "{ ReV = RtV; }", ";", "RyyV = RvvV;", "if (RtV) { JUMP(RsV); } else { ReV = 3; }"]
     pairs = [(a, b) for a in simple for b in simple if a != b]
     if tier == "quick":
         pairs = rnd.sample(pairs, 45)
